@@ -986,11 +986,11 @@ Proof.
   unfold after_cb. rewrite Egx.
   destruct c as [| |m|e|]; destruct f as [|t|t]; auto.
   - (* pre_start returned Ok: link, mark running, hand over to the loop task *)
-    set (lk := match c_link (a_cfg a) with Some sp => try_link wx i sp | None => (wx, true) end).
+    set (lk := match (if c_local (a_cfg a) then None else c_link (a_cfg a)) with Some sp => try_link wx i sp | None => (wx, true) end).
     assert (HL : Inv (Some i) (fst lk) /\ tr (fst lk) i = Go (set_phase s PPreOk)
                  /\ nact (fst lk) = nact wx
                  /\ (forall a1, get (fst lk) i = Some a1 -> core_eq a1 a)).
-    { unfold lk. destruct (c_link (a_cfg a)) as [sp|]; simpl.
+    { unfold lk. destruct (if c_local (a_cfg a) then None else c_link (a_cfg a)) as [sp|]; simpl.
       - split; [apply inv_try_link; exact HX|]. split; [rewrite tr_try_link; exact HtX|].
         split; [apply nact_try_link|]. intros a1 E1. eapply try_link_core; eauto.
       - split; [exact HX|]. split; [exact HtX|]. split; [reflexivity|].
@@ -1233,7 +1233,7 @@ Proof.
   assert (Idl : nnp w (upd w i (fun a0 => upd_pc a0 Idle))).
   { apply nnp_upd. nopark_tac. }
   destruct c; destruct f; auto using nnp_start_failed, nnp_finish.
-  - destruct (c_link (a_cfg a)) as [sp|].
+  - destruct (if c_local (a_cfg a) then None else c_link (a_cfg a)) as [sp|].
     + pose proof (nnp_try_link w i sp) as E. destruct (try_link w i sp) as [w1 ok]. simpl in E.
       eapply nnp_trans; [exact E|]. destruct ok; [|apply nnp_start_failed].
       eapply nnp_trans; [|apply nnp_emit]. apply nnp_upd; nopark_tac.
@@ -1287,14 +1287,42 @@ Proof.
     + injection Hseg as <- <-. split; [|discriminate].
       eapply inv_start_failed with (s := s); [eapply inv_retag_transit; eauto|congruence|exact Ht|].
       destruct HR as (_ & Hpc & _). unfold pc_rel in Hpc. rewrite Epc in Hpc. tauto.
-    + injection Hseg as <- <-. split.
-      * eapply inv_start_cb with (a := a) (s := s); eauto.
-        -- unfold core_same; simpl; repeat split; auto.
-        -- rewrite Epc. exact I.
-        -- discriminate.
-        -- discriminate.
-      * intros _. apply Hnp; [|exact Hp0].
-        eapply nnp_trans; [|apply nnp_start_cb]. apply nnp_upd; nopark_tac.
+    + (* status Starting; a thread-local start() links now, then pre_start *)
+      set (w0 := upd w i (fun a => upd_status a 1)) in *.
+      assert (H0 : Inv None w0) by (apply inv_upd_silent; [apply silent_status|exact H]).
+      assert (Eg0 : get w0 i = Some (upd_status a 1)) by (unfold w0; rewrite get_upd_same, Eg; reflexivity).
+      assert (Ht0 : tr w0 i = Go s) by (unfold w0; rewrite tr_upd; exact Ht).
+      assert (Hn0 : nnp w w0) by (apply nnp_upd; nopark_tac).
+      set (lk := match (if c_local (a_cfg a) then c_link (a_cfg a) else None) with
+                 | Some sp => try_link w0 i sp | None => (w0, true) end) in *.
+      assert (HL : Inv None (fst lk) /\ tr (fst lk) i = Go s /\ nnp w (fst lk)
+                   /\ exists a1, get (fst lk) i = Some a1 /\ core_eq a1 (upd_status a 1)).
+      { unfold lk. destruct (if c_local (a_cfg a) then c_link (a_cfg a) else None) as [sp|]; simpl.
+        - split; [apply inv_try_link; exact H0|]. split; [rewrite tr_try_link; exact Ht0|].
+          split; [eapply nnp_trans; [exact Hn0|apply nnp_try_link]|].
+          destruct (get (fst (try_link w0 i sp)) i) as [a1|] eqn:E1.
+          + exists a1. split; [reflexivity|]. eapply try_link_core; eauto.
+          + exfalso. assert (i < nact (fst (try_link w0 i sp))).
+            { rewrite nact_try_link. apply get_some_lt. congruence. }
+            apply get_some_lt in H1. congruence.
+        - split; [exact H0|]. split; [exact Ht0|]. split; [exact Hn0|].
+          exists (upd_status a 1). split; [exact Eg0|apply core_eq_refl]. }
+      destruct lk as [w1 ok]. simpl in HL. destruct HL as (HL1 & HL2 & HL3 & a1 & HL4 & HL5).
+      destruct HL5 as (C1 & C2 & C3 & C4 & C5 & C6 & C7 & C8). simpl in C1.
+      destruct ok; injection Hseg as <- <-.
+      * split.
+        -- rewrite <- (upd_id w1 i).
+           eapply inv_start_cb with (a := a1) (s := s) (F := fun a => a); eauto.
+           ++ unfold core_same; repeat split; auto.
+           ++ rewrite C1, Epc. exact I.
+           ++ discriminate.
+           ++ discriminate.
+        -- intros _. apply Hnp; [|exact Hp0].
+           eapply nnp_trans; [exact HL3|apply nnp_start_cb].
+      * split; [|discriminate].
+        eapply inv_start_failed with (s := s); [eapply inv_retag_transit; eauto|congruence|exact HL2|].
+        -- rewrite C1, Epc. auto.
+        -- destruct HR as (_ & Hpc & _). unfold pc_rel in Hpc. rewrite Epc in Hpc. tauto.
   - (* first poll of the loop task *)
     assert (Hp0 : is_parked a = false) by (unfold is_parked; rewrite Epc; reflexivity).
     injection Hseg as <- <-. split.
